@@ -287,7 +287,13 @@ class TermInterp(Interp):
         n = bits // 8
         if v[0] == 'bv':
             if n >= len(v[1]):
-                return v if n == len(v[1]) else ('bv', v[1] + (self.ts.k(0),) * (n - len(v[1])))
+                if n == len(v[1]):
+                    return v
+                if tf and tf.get('sg') and tf.get('bits') == 8 * len(v[1]):
+                    # widening a signed value: the new high bytes repeat the sign bit of the old top byte
+                    ext = self.ts.map1(v[1][-1], lambda x: 0xff if (x & 0x80) else 0)
+                    return ('bv', v[1] + (ext,) * (n - len(v[1])))
+                return ('bv', v[1] + (self.ts.k(0),) * (n - len(v[1])))
             if n == 1:
                 return self.tbv(v[1][0])
             return ('bv', v[1][:n])
